@@ -166,4 +166,26 @@ example : (Heap.runOps (⟨(· + ·), (· - ·), (· * ·), (· / ·), 0⟩ : Ar
      .vop 0 .mul true (.scalar 2), .vop 0 .add true (.vars 1), .aupd 0 "x" 5]).vars.map (·.arr)
     = [[1, 2, 7], [2, 4, 14], [3, 6, 21]] := by decide
 
+/-- combining two layouts never produces a name twice: when it succeeds the names of the result are those of the two operands, each
+once (D-C16-F3: before the repair `combine_Address` skipped the duplicate test of `Address.add`, and both entries of a repeated name
+were served the first slice) -/
+theorem C16_combine_names_nodup (a b c : Address) (ha : a.names.Nodup) (hb : b.names.Nodup) (h : a.combine b = .ok c) :
+    c.names = a.names ++ b.names ∧ c.lens = a.lens ++ b.lens ∧ c.names.Nodup := by
+  unfold Address.combine at h
+  split at h
+  · cases h
+  · rename_i hany
+    cases h
+    refine ⟨rfl, rfl, ?_⟩
+    rw [List.nodup_append]
+    refine ⟨ha, hb, ?_⟩
+    intro x hx y hy hxy
+    subst hxy
+    apply hany
+    simp only [List.any_eq_true]
+    exact ⟨x, hy, by simpa using hx⟩
+
+/-- a shared name is refused -/
+example : (Address.combine ⟨["x", "x0"], [2, 1]⟩ ⟨["x0", "x00"], [2, 1]⟩).toOption = none := by decide
+
 end Solverz
